@@ -193,6 +193,9 @@ def gen_cases(family, tier):
             cases.append(c)
     else:
         raise ValueError(family)
+    only = os.environ.get("VERIF_ONLY_CASE")
+    if only:
+        cases = [c for c in cases if c.id == only]
     for c in cases:
         for x in c.cfgs:
             x["id"] = cfg_id(x["opt"]) + ("_inc" if x.get("include_path") is not None else "")
@@ -794,6 +797,8 @@ def cargo_fixpoint(root, shard_mods, casedir, target_dir, mode="build", max_roun
 
 def campaign_dir(family, tier):
     key = "%s-%s-%s-s%d-h%s" % (family, tier, core.tree_key(), core.seed(), core.harness_key())
+    if os.environ.get("VERIF_ONLY_CASE"):
+        key += "-only-" + ident(os.environ["VERIF_ONLY_CASE"])
     return os.path.join(core.WORK, "camp", key)
 
 
